@@ -49,8 +49,58 @@ def make_interp(overrides=None):
     return I
 
 
+_DIGESTS = {}
+
+
+def code_digest():
+    """content hash of everything a verdict depends on: /repo sources, engine, contracts, specs"""
+    if "d" not in _DIGESTS:
+        h = hashlib.sha256()
+        files = sorted(glob.glob(os.path.join(REPO, "praatio", "**", "*.py"), recursive=True))
+        for sub in ("pyvc", "contracts", "spec"):
+            files += sorted(glob.glob(os.path.join(ROOT, sub, "*.py")))
+        for f in files:
+            h.update(f.encode())
+            h.update(open(f, "rb").read())
+        _DIGESTS["d"] = h.hexdigest()
+    return _DIGESTS["d"]
+
+
+def cache_path(task):
+    target, cfgname, overrides = task
+    h = hashlib.sha256()
+    h.update(code_digest().encode())
+    h.update(("%s|%s" % (target, cfgname)).encode())
+    for k in sorted(overrides or {}):
+        h.update(k.encode())
+        h.update(overrides[k].encode())
+    return os.path.join(OUT, "cache", h.hexdigest()[:32] + ".json")
+
+
 def run_task(task):
-    """worker: verify one (contract, config)"""
+    """worker: verify one (contract, config); results are cached by content hash of all inputs"""
+    if os.environ.get("VERIF_NO_CACHE") != "1":
+        cp = cache_path(task)
+        if os.path.exists(cp):
+            try:
+                r = json.load(open(cp))
+                r["cached"] = True
+                return r
+            except Exception:
+                pass
+    r = run_task_uncached(task)
+    if r["error"] is None and os.environ.get("VERIF_NO_CACHE") != "1":
+        try:
+            os.makedirs(os.path.join(OUT, "cache"), exist_ok=True)
+            tmp = cache_path(task) + ".%d.tmp" % os.getpid()
+            json.dump(r, open(tmp, "w"), default=str)
+            os.replace(tmp, cache_path(task))
+        except Exception:
+            pass
+    return r
+
+
+def run_task_uncached(task):
     target, cfgname, overrides = task
     t0 = time.time()
     try:
@@ -225,6 +275,7 @@ def check_property(prop, tier, jobs, seed, t0):
             "back_end": "z3 %s (python API), verification conditions generated by pyvc from /repo's AST" % z3_version(),
             "solver_s": round(sum(r["solver_s"] for r in results), 2),
             "paths_explored": sum(r["paths"] for r in results),
+            "verdicts_reused_from_content_hash_cache": len([r for r in results if r.get("cached")]),
             "per_function": per_function(results),
             "known_findings": [{"id": k, "obligations": [x.get("name", x.get("what")) for x in v]} for k, v in kf_hits.items()],
             "undecided": [o["name"] for o in undecided],
